@@ -277,7 +277,8 @@ def codec_inputs(F, rnd):
     S = ec_mul(F, h, P)                                     # in the subgroup
     outs = []
     for compressed in (True, False):
-        for pt in (S, ec_neg(F, S), P, None):
+        special = [] if F is F1 else [x for P2 in g2_points_real_or_imaginary_y(1) for x in (P2, ec_neg(F, P2))]
+        for pt in [S, ec_neg(F, S), P, None] + special:
             e = bytearray(enc(F, pt, compressed))
             outs.append((compressed, bytes(e)))
             for bit in (0x80, 0x40, 0x20):
@@ -304,8 +305,77 @@ def codec_inputs(F, rnd):
     return outs
 
 
+def encode_points(F, rnd):
+    """points for the encoders: random, both roots over the same x, small x (leading zero bytes), the identity"""
+    pts = [None]
+    for _ in range(3):
+        P = rand_point(F, rnd)
+        pts += [P, ec_neg(F, P)]
+    xv = 0
+    found = 0
+    while found < 4:
+        xv += 1
+        for x in ([xv] if F is F1 else [(xv, 0), (0, xv), (xv, 1)]):
+            y = F.sqrt(F.add(F.mul(F.mul(x, x), x), F.b))
+            if y is not None:
+                pts += [(x, y), (x, F.neg(y))]
+                found += 1
+    if F is F2:
+        for P in g2_points_real_or_imaginary_y():
+            pts += [P, ec_neg(F, P)]
+    return pts
+
+
+def g2_points_real_or_imaginary_y(count=2):
+    """points of E2 whose y lies in Fq (y.c1 == 0) or is purely imaginary (y.c0 == 0): x = a + b u with Im(x^3) = 3a^2 b - b^3 = -4,
+    then x^3 + 4 + 4u = w in Fq and y = sqrt(w) or u sqrt(-w).  These decide lexicographic comparisons on one coefficient only."""
+    real, imag = [], []
+    inv3 = pow(3, Q - 2, Q)
+    b = 0
+    while (len(real) < count or len(imag) < count) and b < 2000:
+        b += 1
+        a2 = (b * b - 4 * pow(b, Q - 2, Q)) * inv3 % Q
+        a0 = F1.sqrt(a2)
+        if a0 is None:
+            continue
+        for a in (a0, (-a0) % Q):
+            w = (a * a * a - 3 * a * b * b + 4) % Q
+            if w == 0:
+                continue
+            r = F1.sqrt(w)
+            if r is not None and len(real) < count:
+                real.append(((a, b), (r, 0)))
+            elif r is None and len(imag) < count:
+                t = F1.sqrt((-w) % Q)
+                if t is not None:
+                    imag.append(((a, b), (0, t)))
+    pts = real + imag
+    assert all(on_curve(F2, P) for P in pts)
+    return pts
+
+
+def refute_encode(binp):
+    rnd = random.Random(13)
+    for F, g in ((F1, 'g1'), (F2, 'g2')):
+        for P in encode_points(F, rnd):
+            for lam in (None, F.rand(rnd)):
+                for compressed in (True, False):
+                    kind = g + ('c' if compressed else 'u')
+                    kv = dict(kind=kind); kv.update(pt_args(F, 'p', jac(F, P, lam)))
+                    out, cmd = run_bin(binp, 'encode', kv)
+                    if 'error' in out:
+                        continue
+                    exp = enc(F, P, compressed).hex()
+                    if out.get('tag') != exp:
+                        return dict(function=f"encode:{kind}", input=kv, actual=out.get('tag'), expected=exp, command=cmd)
+    return None
+
+
 def refute_codec(binp, props_wanted):
     rnd = random.Random(11)
+    if 'C05' in props_wanted:
+        r = refute_encode(binp)
+        if r: return r
     for F, g in ((F1, 'g1'), (F2, 'g2')):
         for compressed, b in codec_inputs(F, rnd):
             kind = g + ('c' if compressed else 'u')
